@@ -219,7 +219,8 @@ def main():
                 errors.append(f"{name}: contradictory precondition / vacuous contract ({r['note']})")
 
     # ---------------------------------------------------------------- induction lemmas: schemas checked by Lean
-    lean_map = {"tree_induction": ["tree_induction", "all_nodes_below_root"], "count-of-a-singleton-mask": ["count_singleton"], "cumsum-of-nonnegatives": ["cumsum_monotone"]}
+    lean_map = {"tree_induction": ["tree_induction", "all_nodes_below_root"], "count-of-a-singleton-mask": ["count_singleton"], "cumsum-of-nonnegatives": ["cumsum_monotone"],
+                "count-of-two-marked-positions": ["count_monotone", "count_two"]}
     used_thms = sorted({t for a in assumptions if a.startswith("assumed-lemma:") for k, ts in lean_map.items() if k in a for t in ts})
     if used_thms and not a.no_proof:
         ok, secs, msg = check_lean(used_thms)
